@@ -427,3 +427,87 @@ func TestVerifSQLCapFilters(t *testing.T) {
 		_ = enc.Encode(r)
 	}
 }
+
+// ---- pages: the statements the real paginators emit (cases generated by pychecks/c21_pages.py)
+
+type capPageCase struct {
+	ID           string `json:"id"`
+	Resource     string `json:"resource"` // transactions | logs | accounts | volumes
+	Kind         string `json:"kind"`     // column | offset | initial
+	Column       string `json:"column"`
+	Order        string `json:"order"` // asc | desc
+	Reverse      bool   `json:"reverse"`
+	PaginationID *int64 `json:"paginationID"`
+	PageSize     uint64 `json:"pageSize"`
+	Offset       uint64 `json:"offset"`
+}
+
+func capPaginated[O any](c capPageCase, opts common.ResourceQuery[O]) common.PaginatedQuery[O] {
+	order := paginate.Order(paginate.OrderAsc)
+	if c.Order == "desc" {
+		order = paginate.Order(paginate.OrderDesc)
+	}
+	initial := common.InitialPaginatedQuery[O]{Column: c.Column, Order: &order, PageSize: c.PageSize, Options: opts}
+	switch c.Kind {
+	case "column":
+		q := common.ColumnPaginatedQuery[O]{InitialPaginatedQuery: initial, Reverse: c.Reverse}
+		if c.PaginationID != nil {
+			q.PaginationID = big.NewInt(*c.PaginationID)
+		}
+		return q
+	case "offset":
+		return common.OffsetPaginatedQuery[O]{InitialPaginatedQuery: initial, Offset: c.Offset}
+	default:
+		return initial
+	}
+}
+
+func TestVerifSQLCapPages(t *testing.T) {
+	outPath := os.Getenv("VERIF_SQLCAP_OUT")
+	inPath := os.Getenv("VERIF_SQLCAP_PAGES")
+	if outPath == "" || inPath == "" {
+		t.Skip("VERIF_SQLCAP_OUT / VERIF_SQLCAP_PAGES not set")
+	}
+	raw, err := os.ReadFile(inPath)
+	if err != nil {
+		t.Fatal(err)
+	}
+	var cases []capPageCase
+	if err := json.Unmarshal(raw, &cases); err != nil {
+		t.Fatal(err)
+	}
+	f, err := os.Create(outPath)
+	if err != nil {
+		t.Fatal(err)
+	}
+	defer f.Close()
+	enc := json.NewEncoder(f)
+	ctx := context.Background()
+	for _, c := range cases {
+		st, rec := capStore(features.DefaultFeatures, false)
+		r := capRecord{Name: "Page." + c.Resource, Config: map[string]string{"id": c.ID}}
+		func() {
+			defer func() {
+				if p := recover(); p != nil {
+					r.Error = "panic"
+				}
+			}()
+			var err error
+			switch c.Resource {
+			case "transactions":
+				_, err = st.Transactions().Paginate(ctx, capPaginated(c, common.ResourceQuery[any]{}))
+			case "logs":
+				_, err = st.Logs().Paginate(ctx, capPaginated(c, common.ResourceQuery[any]{}))
+			case "accounts":
+				_, err = st.Accounts().Paginate(ctx, capPaginated(c, common.ResourceQuery[any]{}))
+			case "volumes":
+				_, err = st.Volumes().Paginate(ctx, capPaginated(c, common.ResourceQuery[ledger.GetVolumesOptions]{}))
+			}
+			if err != nil {
+				r.Error = err.Error()
+			}
+		}()
+		r.SQL = append([]string(nil), rec.stmt...)
+		_ = enc.Encode(r)
+	}
+}
